@@ -74,8 +74,12 @@ pub fn veryl_at(
     timeout: Duration,
 ) -> CliResult {
     let xdg_s = xdg.to_string_lossy().into_owned();
+    // veryl stages bundle targets in a TempDir; a crashed process leaves it
+    // behind, so keep it inside the scratch directory
+    let tmp_s = tmp_dir_for(xdg);
     let mut env: Vec<(&str, &str)> = vec![
         ("XDG_CACHE_HOME", xdg_s.as_str()),
+        ("TMPDIR", tmp_s.as_str()),
         ("NO_GRAPHICS", "1"),
         ("NO_COLOR", "1"),
         ("RUST_BACKTRACE", "0"),
@@ -95,6 +99,13 @@ pub fn veryl_at(
         stdout: o.stdout,
         stderr: o.stderr,
     }
+}
+
+/// `<scratch>/tmp` next to the cache directory (created).
+pub fn tmp_dir_for(xdg: &Path) -> String {
+    let t = xdg.parent().unwrap_or(xdg).join("tmp");
+    let _ = std::fs::create_dir_all(&t);
+    t.to_string_lossy().into_owned()
 }
 
 /// `ws.veryl` with extra environment (journalled like the original).
@@ -196,6 +207,8 @@ pub struct Mismatch {
     /// `output-differs`, `extra-output`
     pub what: String,
     pub detail: String,
+    /// emitted files that are truncated versions of the clean ones
+    pub truncated: Vec<String>,
 }
 
 fn is_strict_prefix(a: &[u8], b: &[u8]) -> bool {
@@ -216,6 +229,7 @@ pub fn compare(got: &SeqRes, clean: &SeqRes, tolerated_extra: Option<&OutTree>) 
             return Some(Mismatch {
                 what: format!("recovery-panics@{}", loc.rsplit("crates/").next().unwrap_or(&loc)),
                 detail: format!("veryl {} died: exit {:?} signal {:?} {}\nstderr tail:\n{}", g.name, g.code, g.signal, g.panic_line, g.tail),
+                truncated: vec![],
             });
         }
         if g.code != c.code {
@@ -230,6 +244,7 @@ pub fn compare(got: &SeqRes, clean: &SeqRes, tolerated_extra: Option<&OutTree>) 
                     c.diag_lines(),
                     g.tail
                 ),
+                truncated: vec![],
             });
         }
         if g.diags != c.diags {
@@ -243,10 +258,12 @@ pub fn compare(got: &SeqRes, clean: &SeqRes, tolerated_extra: Option<&OutTree>) 
             return Some(Mismatch {
                 what: format!("{what}/{}", g.name),
                 detail: format!("veryl {}: only in the clean run: {only_clean:#?}\nonly in this run: {only_got:#?}", g.name),
+                truncated: vec![],
             });
         }
     }
     let mut lines = vec![];
+    let mut truncated = vec![];
     let rank = |w: &str| match w {
         "truncated-output-kept" => 4,
         "output-differs" => 3,
@@ -268,6 +285,7 @@ pub fn compare(got: &SeqRes, clean: &SeqRes, tolerated_extra: Option<&OutTree>) 
             Some(w) if w != v => {
                 if is_strict_prefix(w, v) {
                     lines.push(format!("{k}: {} of {} bytes (a prefix of the clean file)", w.len(), v.len()));
+                    truncated.push(k.clone());
                     bump("truncated-output-kept", &mut what_s);
                 } else {
                     let (x, y) = (String::from_utf8_lossy(w), String::from_utf8_lossy(v));
@@ -294,6 +312,7 @@ pub fn compare(got: &SeqRes, clean: &SeqRes, tolerated_extra: Option<&OutTree>) 
     what_s.map(|w| Mismatch {
         what: w.to_string(),
         detail: lines.join("\n"),
+        truncated,
     })
 }
 
